@@ -21,7 +21,8 @@ def shared_world():
     U = pb.Unit
     dm = pb.DragModel(0.223, pb.TableG7, U.Grain(168), U.Inch(0.308), U.Inch(1.2))
     return {'dm': dm, 'ammo': pb.Ammo(dm, U.FPS(2750)), 'atmo': pb.Atmo.icao(U.Foot(100)),
-            'winds': [pb.Wind(U.MPH(5), U.Degree(90), U.Yard(50)), pb.Wind(U.MPH(9), U.Degree(200), U.Yard(90))]}
+            # segment boundaries INSIDE the 1-2 ft bodies, so that the wind cursor advances during the interleaved region
+            'winds': [pb.Wind(U.MPH(5), U.Degree(90), U.Foot(0.3)), pb.Wind(U.MPH(9), U.Degree(200), U.Foot(0.8)), pb.Wind(U.MPH(3), U.Degree(10), U.Foot(1.3))]}
 
 
 def body(kind, k, sw):
@@ -154,14 +155,25 @@ def monitor(cell):
     base = shared_fp()
     windows = []
 
+    import time as _t
+    budget = {'spent': 0.0, 'stride': 1, 'checked': 0}
+
     def mon(tid, frame, idx):
+        # fingerprinting everything at every point can get slow when module state grows: stay within ~20 s by striding
+        if idx % budget['stride']:
+            return
+        t0 = _t.time()
         if shared_fp() != base:
             windows.append((idx, frame.f_code.co_name))
+        budget['spent'] += _t.time() - t0
+        budget['checked'] += 1
+        if budget['spent'] > 20.0 * budget['stride']:
+            budget['stride'] *= 4
     r = sched.Run([bodies[k]], {}, [0], 'call', monitor=mon)
     r.run()
     end_changed = shared_fp() != base
     return {'v': [], 'n': 1, 'transitions': len(r.points), 'traces': 1, 'nt': cell,
-            'extra': {'shared_state_windows': len(windows), 'monitor_points': len(r.points)}, 'windows': len(windows) + (1 if end_changed else 0),
+            'extra': {'shared_state_windows': len(windows), 'monitor_points': len(r.points), 'monitor_points_fingerprinted': budget['checked']}, 'windows': len(windows) + (1 if end_changed else 0),
             'obs': [len(windows) > 0]}
 
 
@@ -228,6 +240,9 @@ def explore(ctx):
             for i in idxs:
                 plans.append([bs, list(order), i, bound_here, 'call'])
     ctx.run_part('level', plans)
+    if ctx.viol:
+        ctx.cap('further schedule exploration skipped: violating schedules already found')
+        return
     # line granularity: always for a tiny fire||fire in thorough, and whenever the monitor saw a shared-state window
     if windows or not quick:
         bs = 'fire||fire'
@@ -236,7 +251,7 @@ def explore(ctx):
             bodies, sw = make_bodies(bs)
             base = sched.Run(bodies, {}, order, 'line')
             base.run()
-            step = 1 if (windows or not quick) else 7
+            step = max(1, len(base.points) // (1500 if quick else 6000))
             for i in range(0, len(base.points), step):
                 lp.append([bs, list(order), i, 1, 'line'])
         ctx.run_part('level', lp)
